@@ -192,6 +192,37 @@ def _names(prog, x):
     return x
 
 
+def r15_4_who_may_write(ctx, prog):
+    ctx.rule("R15.4", "who may mutate the estimator and its clocks: RttHandler.last_request only in set_timeout (a new request, "
+                      "never a retransmission or a response); RttHandler.rtt / StunClient.rtt only in set_timeout (reset) and "
+                      "transaction_finished (update); rm / rc never; RttCalcuator.{srtt, rttvar, rto} only in update / reset; "
+                      "granularity and configured_rto never; StunTransaction.instant only in on_timeout (cleared)")
+    table = [
+        ("last_request", "stun_agent::client::RttHandler", [r"StunClient::set_timeout$"]),
+        ("rtt", "stun_agent::client::RttHandler", [r"StunClient::set_timeout$", r"StunClient::transaction_finished$"]),
+        ("rm", "stun_agent::client::RttHandler", []),
+        ("rc", "stun_agent::client::RttHandler", []),
+        ("rtt", "stun_agent::client::StunClient", [r"StunClient::set_timeout$", r"StunClient::transaction_finished$"]),
+        ("srtt", "stun_agent::rtt::RttCalcuator", [r"RttCalcuator::update$", r"RttCalcuator::reset$"]),
+        ("rttvar", "stun_agent::rtt::RttCalcuator", [r"RttCalcuator::update$", r"RttCalcuator::reset$"]),
+        ("rto", "stun_agent::rtt::RttCalcuator", [r"RttCalcuator::update$", r"RttCalcuator::reset$"]),
+        ("granularity", "stun_agent::rtt::RttCalcuator", []),
+        ("configured_rto", "stun_agent::rtt::RttCalcuator", []),
+        ("instant", "stun_agent::client::StunTransaction", [r"StunClient::on_timeout$"]),
+    ]
+    total = 0
+    for field, adt, allowed in table:
+        a = prog.adt(adt)
+        if not any(f["name"] == field for f in a["variants"][0]["fields"]):
+            from ..facts import AnchorMissing
+            raise AnchorMissing("field %s of %s" % (field, adt))
+        n, bad = R.who_may_write(ctx, prog, "R15.4", field, adt, allowed + [r"::tests::", r"_tests::"])
+        total += n
+        ctx.ob("R15.4", "write:%s.%s" % (adt.split("::")[-1], field), not bad,
+               "%d mutable access(es) to %s.%s; outside the allowed functions: %s" % (n, adt.split("::")[-1], field, bad or "none"))
+    ctx.floor("R15.4", "mutable accesses found", total, 8)
+
+
 def check(ctx, env):
     ctx.explanation = (
         "Static: RttCalcuator::update/reset/new are interpreted abstractly and the values they write are reconstructed "
@@ -205,3 +236,4 @@ def check(ctx, env):
     r15_3_formula(ctx, prog)
     r15_1_karn(ctx, prog)
     r15_2_stale(ctx, prog)
+    r15_4_who_may_write(ctx, prog)
